@@ -24,8 +24,14 @@ pub enum Malform {
     Cycle { from: usize, to: usize },
     /// an extra component `a#b.tinydiff` not connected to the root
     Unreachable { a: String, b: String },
-    /// a plain version `x` next to a split version `x~s` (the lookup key `x` is claimed twice)
-    Collision { plain_of: usize },
+    /// a second version that claims one lookup key of the split version `x~s` at index `plain_of`. variant 0: a plain
+    /// `x`; 1: a plain `s`; 2: another split version with the same second half (`zz-other~s`); 3: another split version
+    /// with the same first half (`x~zz-other`)
+    Collision {
+        plain_of: usize,
+        #[serde(default)]
+        variant: u8,
+    },
 }
 
 #[derive(Clone, Serialize, Deserialize, PartialEq, Debug)]
@@ -124,6 +130,20 @@ fn edge_diff(p: &Plan, e: &Edge) -> DiffSet {
     }
 }
 
+/// name of the colliding version and the lookup key it shares with `split` (= `x~s`)
+fn collider(split: &str, variant: u8) -> (String, String) {
+    let (x, sfx) = split.split_once('~').unwrap_or((split, ""));
+    match variant % 4 {
+        1 => (sfx.to_string(), sfx.to_string()),
+        2 => (format!("zz-other~{sfx}"), sfx.to_string()),
+        3 => (format!("{x}~zz-other"), x.to_string()),
+        _ => (x.to_string(), x.to_string()),
+    }
+}
+fn collider_name(split: &str, variant: u8) -> String {
+    collider(split, variant).0
+}
+
 /// All files of the intended (healthy) directory.
 fn files_of(p: &Plan) -> Vec<(String, Vec<u8>)> {
     let mut f = vec![];
@@ -138,9 +158,10 @@ fn files_of(p: &Plan) -> Vec<(String, Vec<u8>)> {
         Some(Malform::TwoRoots { name }) => f.push((format!("{name}.tiny"), write_tiny(&extend_ref(&p.states[0]).unwrap(), None).into_bytes())),
         Some(Malform::Cycle { from, to }) => f.push((format!("{}#{}.tinydiff", p.versions[*from], p.versions[*to]), b"tiny\t2\t0\n".to_vec())),
         Some(Malform::Unreachable { a, b }) => f.push((format!("{a}#{b}.tinydiff"), b"tiny\t2\t0\n".to_vec())),
-        Some(Malform::Collision { plain_of }) => {
-            // the split version `x~s` exists at index plain_of; add a plain `x` hanging off the root with an own diff
-            let x = p.versions[*plain_of].split_once('~').map(|s| s.0.to_string()).unwrap_or_default();
+        Some(Malform::Collision { plain_of, variant }) => {
+            // the split version `x~s` exists at index plain_of; add a version that claims one of its keys, hanging off
+            // the root with an own diff
+            let x = collider_name(&p.versions[*plain_of], *variant);
             let marker = "c\tcollision/Marker\t\tcollision/Plain\n";
             f.push((format!("{}#{x}.tinydiff", p.versions[0]), format!("tiny\t2\t0\n{marker}").into_bytes()));
         }
@@ -324,7 +345,7 @@ impl Engine for C05 {
                 // dead parent: queries for it must not care, whatever the listing order - missed seeded change C05-8)
                 3 => Malform::Unreachable { a: "island-a".into(), b: if p.versions.len() >= 2 && w.chance(50) { p.versions[1 + w.usize(p.versions.len() - 1)].clone() } else { "island-b".into() } },
                 _ => match p.versions.iter().position(|v| v.contains('~')) {
-                    Some(i) if i > 0 => Malform::Collision { plain_of: i },
+                    Some(i) if i > 0 => Malform::Collision { plain_of: i, variant: w.below(4) as u8 },
                     _ => Malform::Unreachable { a: "island-a".into(), b: "island-b~island-s".into() },
                 },
             });
@@ -345,6 +366,22 @@ impl Engine for C05 {
             keys.push(b.split('~').next().unwrap().to_string());
         }
         keys.push("no-such-version".into());
+        // unknown names built from pieces that exist: the halves / names of two DIFFERENT versions joined by `~`
+        // (missed seeded change C05-12: a lookup that checks the halves separately)
+        {
+            let mut u = rng.split("unknown-composed");
+            let pieces: Vec<(usize, String)> = p.versions.iter().enumerate().flat_map(|(i, v)| v.split('~').map(move |h| (i, h.to_string())).collect::<Vec<_>>()).collect();
+            if pieces.len() >= 2 {
+                for _ in 0..2 {
+                    let (i, a) = u.pick(&pieces).clone();
+                    let (j, b) = u.pick(&pieces).clone();
+                    let name = format!("{a}~{b}");
+                    if i != j && !p.versions.contains(&name) {
+                        keys.push(name);
+                    }
+                }
+            }
+        }
         let nq = s.range(1, 6);
         let mut healthy = true;
         for _ in 0..nq {
@@ -457,7 +494,7 @@ impl Engine for C05 {
             let last = n - 1;
             let referenced = match &p.malform {
                 Some(Malform::Cycle { from, to }) => *from == last || *to == last,
-                Some(Malform::Collision { plain_of }) => *plain_of == last,
+                Some(Malform::Collision { plain_of, .. }) => *plain_of == last,
                 _ => false,
             };
             if !referenced {
@@ -731,7 +768,7 @@ fn run_once(p: &Plan, create_order: u64, st: &mut RunStats, answers: &mut Vec<St
         }
     }
     let collision_key = match &p.malform {
-        Some(Malform::Collision { plain_of }) => p.versions[*plain_of].split_once('~').map(|x| x.0.to_string()),
+        Some(Malform::Collision { plain_of, variant }) => Some(collider(&p.versions[*plain_of], *variant).1),
         _ => None,
     };
     let island: Vec<String> = match &p.malform {
